@@ -857,6 +857,13 @@ pub fn candidates(spec: &Spec, k: usize, r: &mut Rng, random_extra: usize) -> Ve
                     }
                 }
             }
+            // dates around the century window, a leap day, year ends
+            if c.name == "date" {
+                for d in ["491231", "500101", "501231", "510101", "791231", "800101", "991231", "000101", "240229", "241230", "250101"] {
+                    let over = |l2: usize, c2: usize, rep: usize| if l2 == li && c2 == ci && rep == 0 { Some(format!("{}{}", c.lit, d)) } else { None };
+                    out.push(Candidate { content: render(spec, k, &over, &default_counts), component: comp_label.clone(), class: format!("date={d}") });
+                }
+            }
             // separator missing / doubled
             if !c.lit.is_empty() {
                 let v = sample(c, typical_len(c), k + ci);
